@@ -43,7 +43,7 @@ def spec_assign(q, cur, y, rest, dm):
     pos, neg = dm, (not dm)
     if "onmatch" in q and not rest:
         base = (None, neg)
-    elif ("latch" in q or "onchange" in q) and cur == y and type(cur) is type(y):
+    elif ("latch" in q or "onchange" in q) and cur == y:
         base = (None, neg if "onchange" in q else pos)
     elif "latch" in q and cur is not None:
         base = (None, pos)
